@@ -55,15 +55,13 @@ def status_of(dec, rid):
 
 
 def msg_status(note, rid):
+    """the most advanced thing the note says about the run (a merged backlog may mention it several times)"""
     comp, halt, upd = note
     if any(r.run_id == rid for r in comp):
         return (3, 0, 0)
     if any(r.run_id == rid for r in halt):
         return (2, 0, 0)
-    for r in upd:
-        if r.run_id == rid:
-            return (1, r.block_index, r.history.size())
-    return (0, 0, 0)
+    return max([(1, r.block_index, r.history.size()) for r in upd if r.run_id == rid], default=(0, 0, 0))
 
 
 def ser_dict(r):
@@ -95,6 +93,18 @@ def gen_schedules(ctx):
         if sum(1 for a in seq if a[0] == "in") < 2:
             continue
         out.append((cfg0, 2, list(seq), [1, 2, 2, 3, 4, 3]))
+    # backlog merges ("mg", i, j, k): the next k notes from i to j arrive as ONE message, the newest first and the
+    # older ones (the stash) after it, list by list - what _tcp_outgoing sends after k-1 failed attempts.  Pattern
+    # 1 ; strictly 2 ; 3: a second 1 halts the run and starts another, so a merged message names a run as halted and,
+    # further down its updated list, as active
+    cfg1 = dict(phen=[(1, [G.pattern(1, G.assign(["R", "S", "R"], 0, "distinct"), (), (), False)])], maxcache=100, idbase=1000)
+    alpha_m = alpha + [("mg", 0, 1, 2), ("mg", 1, 0, 2), ("mg", 0, 1, 3)]
+    for seq in itertools.product(alpha_m, repeat=4 if ctx.quick else 5):
+        if sum(1 for a in seq if a[0] == "in") < 2 or not any(a[0] == "mg" for a in seq):
+            continue
+        out.append((cfg1, 2, list(seq), [1, 1, 2, 1, 3, 1]))
+        if len(out) % 3 == 0:
+            out.append((cfg0, 2, list(seq), [1, 2, 4, 1, 2, 3]))
     for _ in range(700 if ctx.quick else 15000):
         n = rng.choice([2, 2, 3])
         cfg = gen_cfg(rng)
@@ -104,8 +114,10 @@ def gen_schedules(ctx):
             r = rng.random()
             if r < 0.45:
                 seq.append(("in", rng.randrange(n)))
-            elif r < 0.9:
+            elif r < 0.78:
                 seq.append(("dl",) + rng.choice(links))
+            elif r < 0.9:
+                seq.append(("mg",) + rng.choice(links) + (rng.choice([2, 2, 3, 4]),))
             else:
                 seq.append(("re",) + rng.choice(links))
         out.append((cfg, n, seq, [rng.randint(1, 4) if rng.random() < 0.9 else 4 for _ in range(40)]))
@@ -195,6 +207,13 @@ def work(sc):
                 note = q.pop(0)
                 last[(a[1], a[2])] = note
                 do_deliver(a[1], a[2], note)
+        elif a[0] == "mg":
+            q = links[(a[1], a[2])]
+            if len(q) >= 2:
+                notes = [q.pop(0) for _ in range(min(len(q), a[3]))]
+                merged = tuple(list(notes[-1][x]) + [r for nt in notes[:-1] for r in nt[x]] for x in range(3))
+                last[(a[1], a[2])] = merged
+                do_deliver(a[1], a[2], merged)
         else:
             if (a[1], a[2]) in last:
                 do_deliver(a[1], a[2], last[(a[1], a[2])])
